@@ -9,6 +9,11 @@ From Verif Require Import ParamsFoot.
 Import ListNotations.
 Open Scope string_scope.
 
+(* NAMING: canonical identifiers as described in IndepFacts.v (fields as <struct>.<tag><n>: agent.iterator_.slice0 =
+   iterator_.values_, collection.set_.CollatorLike0 = set_.collator_, collection.list_.ArrayLike0 = list_.values_,
+   collection.catalog_.map0 = catalog_.keys_, agent.sorter_.RankingFunction0 = sorter_.ranker_; parameters by number;
+   private functions of a type as <private>). *)
+
 (* ---- helpers ---- *)
 Fixpoint al_strs_eqb (a b : list string) : bool :=
   match a, b with
@@ -41,7 +46,7 @@ Definition ends_with (suf s : string) : bool :=
 
 (* strings used in the statements of C17.v / C18.v (which do not open the string scope) *)
 Definition shared_elements_phrase : string := "contains the objects of".
-Definition iterator_values_field : string := "agent.iterator_.values_".
+Definition iterator_values_field : string := "agent.iterator_.slice0".  (* iterator_.values_ : []V *)
 Definition get_iterator_suffix : string := ".GetIterator".
 
 Definition api_row := (string * string * string)%type.
@@ -64,34 +69,34 @@ Definition api_row_eqb (a b : api_row) : bool :=
    - Queue.Fork/Split consume their input queue;  module.Queue/Stack: flow-insensitivity (the slice appended to is
      re-made before; in another branch the same variable is the caller's argument, which MakeFromArray copies). *)
 Definition expected_api_exceptions : list api_row := [
-  ("agent.(*iteratorClass_).MakeFromArray", "parameter 1 [slice]", "kept: agent.iterator_.values_; result 1 keeps in agent.iterator_.values_ it");
-  ("agent.(*iteratorClass_).MakeFromArray", "result 1", "keeps in agent.iterator_.values_ parameter 1");
-  ("agent.(*sorterClass_).MakeWithRanker", "parameter 1 [func:agent.RankingFunction]", "kept: agent.sorter_.ranker_; result 1 keeps in agent.sorter_.ranker_ it");
-  ("agent.(*sorterClass_).MakeWithRanker", "result 1", "keeps in agent.sorter_.ranker_ parameter 1");
-  ("agent.(*sorter_).GetRanker", "result 1", "aliases receiver field agent.sorter_.ranker_");
+  ("agent.(*iteratorClass_).MakeFromArray", "parameter 1 [slice]", "kept: agent.iterator_.slice0; result 1 keeps in agent.iterator_.slice0 it");
+  ("agent.(*iteratorClass_).MakeFromArray", "result 1", "keeps in agent.iterator_.slice0 parameter 1");
+  ("agent.(*sorterClass_).MakeWithRanker", "parameter 1 [func:agent.RankingFunction]", "kept: agent.sorter_.RankingFunction0; result 1 keeps in agent.sorter_.RankingFunction0 it");
+  ("agent.(*sorterClass_).MakeWithRanker", "result 1", "keeps in agent.sorter_.RankingFunction0 parameter 1");
+  ("agent.(*sorter_).GetRanker", "result 1", "aliases receiver field agent.sorter_.RankingFunction0");
   ("agent.(*sorter_).ReverseValues", "parameter 1 [slice]", "written");
   ("agent.(*sorter_).ShuffleValues", "parameter 1 [slice]", "written");
   ("agent.(*sorter_).SortValues", "parameter 1 [slice]", "written");
-  ("collection.(*catalog_).SortValuesWithRanker", "parameter 1 [func:agent.RankingFunction]", "kept: arg 1:ranker of collection.(*list_).SortValuesWithRanker");
-  ("collection.(*list_).SortValuesWithRanker", "parameter 1 [func:agent.RankingFunction]", "kept: arg 1:ranker of collection.(*list_).SortValuesWithRanker; kept: arg 1:ranker of collection.(array_).SortValuesWithRanker");
+  ("collection.(*catalog_).SortValuesWithRanker", "parameter 1 [func:agent.RankingFunction]", "kept: arg 1 of collection.(*list_).SortValuesWithRanker");
+  ("collection.(*list_).SortValuesWithRanker", "parameter 1 [func:agent.RankingFunction]", "kept: arg 1 of collection.(*list_).SortValuesWithRanker; kept: arg 1 of collection.(array_).SortValuesWithRanker");
   ("collection.(*queueClass_).Fork", "parameter 2 [iface:collection.QueueLike]", "written");
   ("collection.(*queueClass_).Split", "parameter 2 [iface:collection.QueueLike]", "written");
-  ("collection.(*setClass_).And", "parameter 1 [iface:collection.SetLike]", "kept: arg 1:collator of collection.(*setClass_).MakeWithCollator; result 1 keeps in collection.set_.collator_ its field collection.set_.collator_");
-  ("collection.(*setClass_).And", "result 1", "keeps in collection.set_.collator_ parameter 1 field collection.set_.collator_");
-  ("collection.(*setClass_).MakeWithCollator", "parameter 1 [iface:agent.CollatorLike]", "kept: collection.set_.collator_; result 1 keeps in collection.set_.collator_ it");
-  ("collection.(*setClass_).MakeWithCollator", "result 1", "keeps in collection.set_.collator_ parameter 1");
-  ("collection.(*setClass_).Or", "parameter 1 [iface:collection.SetLike]", "kept: arg 1:collator of collection.(*setClass_).MakeWithCollator; result 1 keeps in collection.set_.collator_ its field collection.set_.collator_");
-  ("collection.(*setClass_).Or", "result 1", "keeps in collection.set_.collator_ parameter 1 field collection.set_.collator_");
-  ("collection.(*setClass_).Sans", "parameter 1 [iface:collection.SetLike]", "kept: arg 1:collator of collection.(*setClass_).MakeWithCollator; result 1 keeps in collection.set_.collator_ its field collection.set_.collator_");
-  ("collection.(*setClass_).Sans", "result 1", "keeps in collection.set_.collator_ parameter 1 field collection.set_.collator_");
-  ("collection.(*setClass_).Xor", "parameter 1 [iface:collection.SetLike]", "kept: arg 1:first of collection.(*setClass_).Or; kept: arg 1:first of collection.(*setClass_).Sans; result 1 keeps in collection.set_.collator_ its field collection.set_.collator_");
-  ("collection.(*setClass_).Xor", "parameter 2 [iface:collection.SetLike]", "kept: arg 1:first of collection.(*setClass_).Sans");
-  ("collection.(*setClass_).Xor", "result 1", "keeps in collection.set_.collator_ parameter 1 field collection.set_.collator_");
-  ("collection.(*set_).GetCollator", "result 1", "aliases receiver field collection.set_.collator_");
-  ("collection.(array_).SortValuesWithRanker", "parameter 1 [func:agent.RankingFunction]", "kept: arg 1:ranker of agent.(*sorterClass_).MakeWithRanker");
+  ("collection.(*setClass_).And", "parameter 1 [iface:collection.SetLike]", "kept: arg 1 of collection.(*setClass_).MakeWithCollator; result 1 keeps in collection.set_.CollatorLike0 its field collection.set_.CollatorLike0");
+  ("collection.(*setClass_).And", "result 1", "keeps in collection.set_.CollatorLike0 parameter 1 field collection.set_.CollatorLike0");
+  ("collection.(*setClass_).MakeWithCollator", "parameter 1 [iface:agent.CollatorLike]", "kept: collection.set_.CollatorLike0; result 1 keeps in collection.set_.CollatorLike0 it");
+  ("collection.(*setClass_).MakeWithCollator", "result 1", "keeps in collection.set_.CollatorLike0 parameter 1");
+  ("collection.(*setClass_).Or", "parameter 1 [iface:collection.SetLike]", "kept: arg 1 of collection.(*setClass_).MakeWithCollator; result 1 keeps in collection.set_.CollatorLike0 its field collection.set_.CollatorLike0");
+  ("collection.(*setClass_).Or", "result 1", "keeps in collection.set_.CollatorLike0 parameter 1 field collection.set_.CollatorLike0");
+  ("collection.(*setClass_).Sans", "parameter 1 [iface:collection.SetLike]", "kept: arg 1 of collection.(*setClass_).MakeWithCollator; result 1 keeps in collection.set_.CollatorLike0 its field collection.set_.CollatorLike0");
+  ("collection.(*setClass_).Sans", "result 1", "keeps in collection.set_.CollatorLike0 parameter 1 field collection.set_.CollatorLike0");
+  ("collection.(*setClass_).Xor", "parameter 1 [iface:collection.SetLike]", "kept: arg 1 of collection.(*setClass_).Or; kept: arg 1 of collection.(*setClass_).Sans; result 1 keeps in collection.set_.CollatorLike0 its field collection.set_.CollatorLike0");
+  ("collection.(*setClass_).Xor", "parameter 2 [iface:collection.SetLike]", "kept: arg 1 of collection.(*setClass_).Sans");
+  ("collection.(*setClass_).Xor", "result 1", "keeps in collection.set_.CollatorLike0 parameter 1 field collection.set_.CollatorLike0");
+  ("collection.(*set_).GetCollator", "result 1", "aliases receiver field collection.set_.CollatorLike0");
+  ("collection.(array_).SortValuesWithRanker", "parameter 1 [func:agent.RankingFunction]", "kept: arg 1 of agent.(*sorterClass_).MakeWithRanker");
   ("module.Queue", "parameter 1 [slice]", "written");
-  ("module.Set", "parameter 1 [slice]", "kept: arg 1:collator of collection.(*setClass_).MakeWithCollator; result 1 keeps in collection.set_.collator_ it");
-  ("module.Set", "result 1", "keeps in collection.set_.collator_ parameter 1");
+  ("module.Set", "parameter 1 [slice]", "kept: arg 1 of collection.(*setClass_).MakeWithCollator; result 1 keeps in collection.set_.CollatorLike0 it");
+  ("module.Set", "result 1", "keeps in collection.set_.CollatorLike0 parameter 1");
   ("module.Stack", "parameter 1 [slice]", "written")].
 
 (* the methods that write IN PLACE into storage that was reachable before the call, and through which field:
@@ -100,15 +105,15 @@ Definition expected_api_exceptions : list api_row := [
    in place but every operation that changes the SIZE builds a new array and swaps the field (no append, no
    reslicing: [foot_field_sets] is empty); a Catalog inserts into / deletes from its key map. *)
 Definition expected_storage_writes : list (string * string) := [
-  ("collection.(*catalog_).RemoveValues", "collection.catalog_.keys_");
-  ("collection.(*catalog_).RemoveValue", "collection.catalog_.keys_");
-  ("collection.(*catalog_).SetValue", "collection.catalog_.keys_");
-  ("collection.(*list_).ReverseValues", "collection.list_.values_");
-  ("collection.(*list_).SetValues", "collection.list_.values_");
-  ("collection.(*list_).SetValue", "collection.list_.values_");
-  ("collection.(*list_).ShuffleValues", "collection.list_.values_");
-  ("collection.(*list_).SortValuesWithRanker", "collection.list_.values_");
-  ("collection.(*list_).SortValues", "collection.list_.values_");
+  ("collection.(*catalog_).RemoveValues", "collection.catalog_.map0");
+  ("collection.(*catalog_).RemoveValue", "collection.catalog_.map0");
+  ("collection.(*catalog_).SetValue", "collection.catalog_.map0");
+  ("collection.(*list_).ReverseValues", "collection.list_.ArrayLike0");
+  ("collection.(*list_).SetValues", "collection.list_.ArrayLike0");
+  ("collection.(*list_).SetValue", "collection.list_.ArrayLike0");
+  ("collection.(*list_).ShuffleValues", "collection.list_.ArrayLike0");
+  ("collection.(*list_).SortValuesWithRanker", "collection.list_.ArrayLike0");
+  ("collection.(*list_).SortValues", "collection.list_.ArrayLike0");
   ("collection.(array_).ReverseValues", "collection.array_.[]");
   ("collection.(array_).SetValues", "collection.array_.[]");
   ("collection.(array_).SetValue", "collection.array_.[]");
@@ -122,7 +127,7 @@ Definition expected_storage_writes : list (string * string) := [
 
 (* storage fields that are only ever set to fresh memory and never written in place: the snapshot of an
    iterator (C17: "iterators over an immutable snapshot") and the runes of a scanner *)
-Definition expected_publish_once : list string := ["agent.iterator_.values_"; "cdcn.scanner_.runes_"].
+Definition expected_publish_once : list string := ["agent.iterator_.slice0"; "cdcn.scanner_.slice0"].
 
 (* ---- the obligations ---- *)
 
@@ -134,7 +139,7 @@ Definition c18_named (r : api_row) : bool :=
    || contains "Class_)." (api_fun r) || String.prefix "module." (api_fun r)).
 (* of those, the ones that keep a COLLATOR (an agent, not storage of the collection) *)
 Definition keeps_only_a_collator (r : api_row) : bool :=
-  String.prefix "keeps in collection.set_.collator_ parameter 1" (api_verdict r) && negb (contains ";" (api_verdict r)).
+  String.prefix "keeps in collection.set_.CollatorLike0 parameter 1" (api_verdict r) && negb (contains ";" (api_verdict r)).
 
 (* (a) every result that C18 names is memory allocated in the call and not stored anywhere else.
    BREAKS WHEN: GetValues returns the receiver for the full range (C18-A); a class function returns an operand
@@ -153,7 +158,7 @@ Definition alias_params_not_retained : bool :=
   forallb (fun r => negb (slice_or_map_param r && (String.prefix "collection." (api_fun r) || String.prefix "module." (api_fun r)))
                     || api_clean r
                     || existsb (api_row_eqb r) [("module.Queue", "parameter 1 [slice]", "written"); ("module.Stack", "parameter 1 [slice]", "written");
-                                                ("module.Set", "parameter 1 [slice]", "kept: arg 1:collator of collection.(*setClass_).MakeWithCollator; result 1 keeps in collection.set_.collator_ it")])
+                                                ("module.Set", "parameter 1 [slice]", "kept: arg 1 of collection.(*setClass_).MakeWithCollator; result 1 keeps in collection.set_.CollatorLike0 it")])
           foot_api
   && al_triples_eqb (filter (fun r => negb (api_clean r)) foot_api) expected_api_exceptions.
 (* (c) storage is written in place only by the reviewed methods; no method sets a storage field to something
@@ -176,7 +181,7 @@ Definition alias_no_shared_elements : bool :=
 Definition alias_iterators_over_copies : bool :=
   forallb (fun r => negb (ends_with get_iterator_suffix (api_fun r) && api_is_result r) || api_clean r) foot_api &&
   existsb (String.eqb iterator_values_field) foot_publish_once &&
-  forallb (fun e : string * string => negb (String.prefix "arg 1:values of agent.(*iteratorClass_).MakeFromArray" (fst e))) foot_shared_edges.
+  forallb (fun e : string * string => negb (String.prefix "arg 1 of agent.(*iteratorClass_).MakeFromArray" (fst e))) foot_shared_edges.
 
 Definition alias_ok : bool :=
   foot_tool_ok && alias_results_fresh && alias_params_not_retained && alias_in_place_discipline &&
